@@ -66,6 +66,9 @@ class MPTrunc:
         return f"<truncated msgpack {self.length} of {self.blob!r}>"
 
 
+ERRORS = ["surrogateescape"]  # the error handler of the packb call being modelled (a string leaf L stands for the bytes L.encode("utf-8", "surrogateescape"))
+
+
 def tree_of(it, obj, default, used=False):
     if isinstance(obj, ExtType):
         return ("ext", obj.code, obj.data)
@@ -73,11 +76,15 @@ def tree_of(it, obj, default, used=False):
         return tree_of(it, obj.base, default, used)  # strict_types=False: subclasses of int/str/bytes/list/float
     if isinstance(obj, str):
         try:
-            obj.encode("utf-8", "surrogateescape")
+            raw = obj.encode("utf-8", ERRORS[-1] or "strict")
         except UnicodeEncodeError as e:
             raise PyRaise(e)
-        return ("leaf", obj)
+        except LookupError:
+            raise Unsupported(f"packb(unicode_errors={ERRORS[-1]!r})")
+        return ("leaf", raw.decode("utf-8", "surrogateescape"))  # (the identity when the handler is surrogateescape)
     if isinstance(obj, SStr):
+        if ERRORS[-1] != "surrogateescape":
+            raise Unsupported(f"packb(unicode_errors={ERRORS[-1]!r}) of symbolic text")
         # packb(unicode_errors="surrogateescape"): every code point must be encodable, i.e. no surrogate other than an escaped byte U+DC80..U+DCFF
         S_ = z3.ReSort(z3.StringSort())
         ok = z3.Star(z3.Union(z3.Range(chr(0), chr(0xD7FF)), z3.Range(chr(0xDC80), chr(0xDCFF)), z3.Range(chr(0xE000), chr(0x2FFFF))))
@@ -106,21 +113,35 @@ def m_packb(it, obj, default=None, use_bin_type=True, unicode_errors="strict", *
          "`default` is called once for anything else; unpackb(use_list=False, raw=False) is the inverse walk calling ext_hook; "
          "strings are the identity on the canonical (surrogateescape round-trippable) domain")
     it.event("packb-options", ("use_bin_type", use_bin_type), ("unicode_errors", unicode_errors))
-    b = MPBytes(tree_of(it, obj, default))
+    ERRORS.append(unicode_errors if unicode_errors is not None else "strict")
+    try:
+        b = MPBytes(tree_of(it, obj, default))
+    finally:
+        ERRORS.pop()
     if b.concrete is None:
         it.assume(b.length >= 1)
     return b
 
 
-def untree(it, t, ext_hook, use_list):
+def untree(it, t, ext_hook, use_list, errors="surrogateescape"):
     k = t[0]
     if k == "leaf":
+        if errors != "surrogateescape" and isinstance(t[1], (str, SStr)):
+            # the leaf stands for the bytes L.encode("utf-8", "surrogateescape"): another handler may decode them differently or refuse them
+            if not isinstance(t[1], str):
+                raise Unsupported(f"unpackb(unicode_errors={errors!r}) of symbolic text")
+            try:
+                return t[1].encode("utf-8", "surrogateescape").decode("utf-8", errors or "strict")
+            except UnicodeDecodeError as e:
+                raise PyRaise(e)
+            except LookupError:
+                raise Unsupported(f"unpackb(unicode_errors={errors!r})")
         return t[1]
     if k == "arr":
-        xs = [untree(it, x, ext_hook, use_list) for x in t[1]]
+        xs = [untree(it, x, ext_hook, use_list, errors) for x in t[1]]
         return xs if use_list else tuple(xs)
     if k == "map":
-        return {untree(it, a, ext_hook, use_list): untree(it, b, ext_hook, use_list) for a, b in t[1]}
+        return {untree(it, a, ext_hook, use_list, errors): untree(it, b, ext_hook, use_list, errors) for a, b in t[1]}
     if k == "ext":
         if ext_hook is None:
             return ExtType(t[1], t[2])
@@ -145,11 +166,11 @@ def m_unpackb(it, data, ext_hook=None, use_list=True, raw=False, unicode_errors=
         except ValueError as e:
             raise PyRaise(ValueError(str(e)))
         it.event("unpackb-options", ("use_list", use_list), ("raw", raw), ("unicode_errors", unicode_errors))
-        return untree(it, t, ext_hook, use_list)
+        return untree(it, t, ext_hook, use_list, unicode_errors if unicode_errors is not None else "strict")
     if not isinstance(data, MPBytes):
         raise Unsupported("unpackb of bytes that were not produced by the msgpack model")
     it.event("unpackb-options", ("use_list", use_list), ("raw", raw), ("unicode_errors", unicode_errors))
-    return untree(it, data.tree, ext_hook, use_list)
+    return untree(it, data.tree, ext_hook, use_list, unicode_errors if unicode_errors is not None else "strict")
 
 
 class MsgpackModel:
